@@ -87,6 +87,54 @@ fn sliver_polygon(rng: &mut Rng) -> Polygon<f64> {
     }
 }
 
+/// the same polygon with some consecutive vertices repeated (zero-length edges; still valid)
+fn dup_vertices(rng: &mut Rng, p: &Polygon<f64>) -> Polygon<f64> {
+    let dup = |rng: &mut Rng, r: &LineString<f64>| -> LineString<f64> {
+        let mut v = vec![];
+        for q in &r.0 {
+            v.push(*q);
+            if rng.chance(1, 4) {
+                v.push(*q);
+            }
+        }
+        LineString(v)
+    };
+    let e = dup(rng, p.exterior());
+    let hs: Vec<LineString<f64>> = p.interiors().iter().map(|h| dup(rng, h)).collect();
+    Polygon::new(e, hs)
+}
+
+/// very thin valid polygons with non-representable, nearly coincident scan crossings
+fn needle_polygon(rng: &mut Rng) -> Polygon<f64> {
+    let big = |rng: &mut Rng| -> f64 {
+        let e = rng.range(0, 40) as i32;
+        (rng.range(1, 1 << 20) as f64) * 2f64.powi(e - 20)
+    };
+    let (ox, oy) = if rng.chance(1, 2) { (0.0, 0.0) } else { (big(rng) * 8.0, big(rng) * 8.0) };
+    let l = big(rng) + 1.0;
+    let h1 = big(rng) / 1024.0 + 0.5;
+    let eps = 2f64.powi(-(rng.range(1, 45) as i32));
+    let n = rng.range(3, 6);
+    // fan of nearly parallel edges from the origin corner to the far side
+    let mut v = vec![Coord { x: ox, y: oy }];
+    for i in 0..(n - 1) {
+        v.push(Coord { x: ox + l, y: oy + h1 * (1.0 + eps * i as f64) });
+    }
+    // make it a polygon: corner, far side going up
+    v.dedup();
+    if v.len() < 3 {
+        return Polygon::new(LineString(vec![c(0, 0), c(8, 1), c(8, 2), c(0, 0)]), vec![]);
+    }
+    let f = v[0];
+    v.push(f);
+    let p = Polygon::new(LineString(v), vec![]);
+    match rng.below(3) {
+        0 => p,
+        1 => p.map_coords(|q| Coord { x: q.y, y: q.x }),
+        _ => p.map_coords(|q| Coord { x: -q.x, y: q.y + q.x * 0.5 }),
+    }
+}
+
 /// collection of mixed dimension, members shifted apart
 fn mixed_collection(rng: &mut Rng) -> Geometry<f64> {
     let n = rng.range(1, 4);
@@ -124,12 +172,19 @@ fn gen_geom(rng: &mut Rng, for_ip: bool) -> Geometry<f64> {
     let g = match rng.below(20) {
         0 => degenerate(rng, k),
         1 | 2 => mixed_collection(rng),
-        3 | 4 => Geometry::Polygon(sliver_polygon(rng)),
+        3 => Geometry::Polygon(sliver_polygon(rng)),
+        4 if for_ip && rng.chance(1, 2) => Geometry::Polygon(needle_polygon(rng)),
+        4 => Geometry::Polygon(sliver_polygon(rng)),
         5 | 6 | 7 if for_ip => Geometry::Polygon(touching_hole_polygon(rng)),
         5 => Geometry::Polygon(touching_hole_polygon(rng)),
         8 | 9 => Geometry::Polygon(gen_polygon(rng, k)),
         10 => Geometry::MultiPolygon(gen_multipolygon(rng, k)),
         _ => gen_valid(rng, k),
+    };
+    // repeat some consecutive ring vertices (zero-length edges: points in the sweep)
+    let g = match g {
+        Geometry::Polygon(p) if rng.chance(1, 6) => Geometry::Polygon(dup_vertices(rng, &p)),
+        g => g,
     };
     if rng.chance(1, 4) {
         let f = far(rng);
@@ -219,6 +274,8 @@ pub fn gen(rng: &mut Rng, _index: u64) -> String {
     if let Ok(st) = std::env::var("C12_STREAM") {
         let g = match st.as_str() {
             "touch" => Geometry::Polygon(touching_hole_polygon(rng)),
+            "needle" => Geometry::Polygon(needle_polygon(rng)),
+            "dup" => { let p = if rng.chance(1, 2) { touching_hole_polygon(rng) } else { gen_polygon(rng, 6) }; Geometry::Polygon(dup_vertices(rng, &p)) }
             _ => Geometry::Polygon(gen_polygon(rng, 6)),
         };
         let g = if rng.chance(1, 3) { let f = far(rng); g.map_coords(f) } else { g };
